@@ -145,7 +145,7 @@ fn main() {
     let tier = args.iter().position(|a| a == "--tier").map(|i| args[i + 1].clone()).or_else(|| rs::env::var("VERIF_TIER").ok()).unwrap_or_else(|| "quick".into());
     let only: Option<String> = args.iter().position(|a| a == "--only").map(|i| args[i + 1].rsplit_once(':').map(|x| x.0.to_string()).unwrap_or_default());
     let scratch = rs::env::var("VERIF_SCRATCH").unwrap_or_else(|_| "/verif/target/scratch".into()); let _ = rs::fs::create_dir_all(&scratch);
-    let ckdir_s = format!("/verif/replays/{}", args.first().cloned().filter(|a| a.starts_with('C')).unwrap_or_else(|| "C18".into())); let ckdir: &'static str = Box::leak(ckdir_s.into_boxed_str()); let _ = rs::fs::create_dir_all(ckdir);
+    let ckdir_s = format!("{}/replays/{}", rs::env::var("VERIF_ROOT").unwrap_or_else(|_| "/verif".into()), args.first().cloned().filter(|a| a.starts_with('C')).unwrap_or_else(|| "C18".into())); let ckdir: &'static str = Box::leak(ckdir_s.into_boxed_str()); let _ = rs::fs::create_dir_all(ckdir);
     let exe = rs::env::current_exe().unwrap(); let start = rs::time::Instant::now();
     let pid = args.first().cloned().filter(|a| a.starts_with('C')).unwrap_or_else(|| "C18".into());
     // C12 (entropy failure is an error) uses the scenarios with an injected failure; C18 uses all of them
